@@ -1,7 +1,7 @@
 import collections
 
 from .base_array import base_array
-from .composite import codec_kind, distance_to_next_multiply, struct_packed
+from .composite import codec_kind, distance_to_next_multiply, struct_packed, wire_alignment, wire_size
 from .descriptor import DescriptorField
 from .exception import ProphyError
 from .scalar import u32
@@ -213,13 +213,13 @@ class struct_generator(_composite_generator_base):
             if issubclass(type_, (base_array, bytes)) and type_._DYNAMIC:
                 type_._PARTIAL_ALIGNMENT = alignment
                 alignment = 1
-            alignment = max(type_._ALIGNMENT, alignment)
+            alignment = max(wire_alignment(type_), alignment)
         if not issubclass(cls, struct_packed) and cls._descriptor:
 
             def get_padded_sizes():
                 types = list(cls._types())
-                sizes = [tp._SIZE for tp in types]
-                alignments = [tp._ALIGNMENT for tp in types[1:]] + [cls._ALIGNMENT]
+                sizes = [wire_size(tp) for tp in types]
+                alignments = [wire_alignment(tp) for tp in types[1:]] + [cls._ALIGNMENT]
                 offset = 0
 
                 for size, alignment in zip(sizes, alignments):
